@@ -15,6 +15,7 @@ const cipherPkg = "filesystem/filespace/encryptfs/cipherfs"
 func init() {
 	register(&PropDef{ID: "C05", Title: "Encrypted filespace: round-trip, secrecy, integrity, no crash on bad data", Rules: rulesC05,
 		Explanation: "Decided (structural necessary conditions, all cipherfs.Cipher implementers discovered by type, and encryptfs.EncryptFS): R1 every slice/index of stored (attacker-controlled) bytes on the decrypt path with a non-zero bound is dominated by a length comparison of that very slice implying the bound, whose failing edge returns an error (no panic on truncated data); R2 the nonce of every AEAD.Seal is a buffer allocated in that call and filled from crypto/rand with the error checked on the path to Seal; R3 the key material stored in the filespace is a fresh buffer into which Secret, Salt and (on the HostOnly edge) the host id flow, a child view carries the same key and cipher, and the host id accessor returns the machine-derived value; R4 plaintext handed to WriteFile / the stream writer reaches the base filespace only as the result of Cipher.Encrypt / AEAD.Seal / EncryptWriter; R5 ReadFile/Reader return only what Cipher.Decrypt/DecryptReader produced, and Decrypt returns success only with AEAD.Open's own result; R6 the 4-byte cipher tag: written length = read length, same byte order, unknown tag -> error before dispatch; R7 the 11 name-space operations of EncryptFS are pure delegations; R8 stream order: seal -> write -> close with every error propagated, read-all -> close -> open, and a stream handed to a decrypting reader is closed on every failing path (ownership); R9 stream writers keep a copy of each chunk, never the caller's buffer. " +
+			"R6 also: the in-memory cipher key type keeps every byte of the 4-byte tag (no narrowing conversion between header and table lookup). " +
 			"NOT decided: round-trip equality for all plaintexts, ciphertext indistinguishability, AEAD correctness (trusted: crypto/cipher), behaviour of user-supplied ciphers.",
 	})
 }
@@ -345,57 +346,7 @@ func rulesC05(c *Ctx) {
 			c.Check(ok && bad == "", "R4", tn+".Encrypt returns only sealed data", f.Pos(), "result = AEAD.Seal / inner Encrypt (+ tag)", "Encrypt returns "+bad+" — the plaintext parameter reaches the stored bytes unsealed")
 		}
 	}
-	// stream writer: what is written to the underlying stream is Encrypt's result
-	n8 := 0
-	for _, f := range c.P.PkgFuncs(cipherPkg + "/aesgcm256cfs") {
-		if f.Name() != "Close" || f.Signature.Recv() == nil {
-			continue
-		}
-		var enc, wr, cl *ssa.Call
-		for _, ci := range Calls(f) {
-			call, _ := ci.Instr.(*ssa.Call)
-			if call == nil {
-				continue
-			}
-			switch {
-			case ci.Method != nil && ci.Method.Name() == "Encrypt":
-				enc = call
-			case ci.Method != nil && ci.Method.Name() == "Write":
-				wr = call
-			case ci.Method != nil && ci.Method.Name() == "Close":
-				cl = call
-			}
-		}
-		if enc == nil && wr == nil {
-			continue // the reader's Close
-		}
-		n8++
-		facts := factsFor(f)
-		ok := enc != nil && wr != nil && cl != nil
-		why := "writer.Close does not seal, write and close"
-		if ok {
-			os := Origins(wr.Call.Args[0], FlowOpts{Alias: true})
-			if !allOrigins(os, func(o Origin) bool { return o.Val == ssa.Value(enc) }) {
-				ok, why = false, "the bytes written to the underlying stream are "+originsString(os)+", not Encrypt's result (plaintext reaches the base)"
-			} else if !callErrKnownNil(facts, enc, wr.Block()) {
-				ok, why = false, "the write is not confined to the edge where Encrypt succeeded"
-			} else if !dominates(wr, cl) || !callErrKnownNil(facts, wr, cl.Block()) {
-				ok, why = false, "the underlying stream is closed without the write having succeeded"
-			} else {
-				ret := false
-				for _, r := range returnsOf(f) {
-					if resolve(r.Results[0]) == ssa.Value(cl) {
-						ret = true
-					}
-				}
-				if !ret {
-					ok, why = false, "the error of closing the underlying stream is not returned"
-				}
-			}
-		}
-		c.Check(ok, "R8", "stream writer "+fname(f), f.Pos(), "seal -> write -> close, each error propagated", why)
-	}
-	c.Floor("R8", n8, 1)
+	c.Floor("R8", ruleEncryptedWriterClose(c, "R8"), 1)
 
 	// ---- R6 tag table ---------------------------------------------------------------------------
 	ruleCipherTag(c)
@@ -609,6 +560,25 @@ func ruleCipherTag(c *Ctx) {
 	okLen := wlen > 0 && wlen == rlenStream && wlen == rlenData
 	c.Check(okLen, "R6", "cipher tag length", toBin.Pos(), fmt.Sprintf("written %d = stream header %d = data header %d", wlen, rlenStream, rlenData),
 		fmt.Sprintf("tag length written %d, read from stream %d, read from data %d — reader and writer disagree on the header", wlen, rlenStream, rlenData))
+	// the in-memory key keeps every byte of the tag: no narrowing conversion between the header and the table lookup
+	sizes := types.SizesFor("gc", "amd64")
+	narrow := ""
+	for _, f := range []*ssa.Function{newKey, toBin} {
+		eachInstr(f, func(_ *ssa.BasicBlock, _ int, in ssa.Instruction) {
+			if cv, ok := in.(*ssa.Convert); ok {
+				ft, tt := cv.X.Type().Underlying(), cv.Type().Underlying()
+				if fb, ok1 := ft.(*types.Basic); ok1 && fb.Info()&types.IsInteger != 0 {
+					if tb, ok2 := tt.(*types.Basic); ok2 && tb.Info()&types.IsInteger != 0 && sizes.Sizeof(tt) < sizes.Sizeof(ft) && f == newKey {
+						narrow = fmt.Sprintf("%s converts the %d-byte header value to a %d-byte key", fname(f), sizes.Sizeof(ft), sizes.Sizeof(tt))
+					}
+				}
+			}
+		})
+	}
+	if newKey.Signature.Results().Len() == 1 && wlen > 0 && sizes.Sizeof(newKey.Signature.Results().At(0).Type()) < wlen {
+		narrow = fmt.Sprintf("the key type %s holds %d of the %d tag bytes", typeString(newKey.Signature.Results().At(0).Type()), sizes.Sizeof(newKey.Signature.Results().At(0).Type()), wlen)
+	}
+	c.Check(narrow == "", "R6", "cipher tag width", newKey.Pos(), "the key type keeps all tag bytes", narrow+" — stored data whose tag is corrupted in the dropped bytes is still dispatched and opened instead of being refused")
 	sameOrder := worder != "" && rorder != "" && strings.Split(worder, ")")[0] == strings.Split(rorder, ")")[0]
 	c.Check(sameOrder, "R6", "cipher tag byte order", toBin.Pos(), worder+" / "+rorder, "writer uses "+worder+", reader "+rorder)
 	// unknown tag -> error before dispatch
@@ -817,4 +787,60 @@ func returnsReachableFrom(b *ssa.BasicBlock) []*ssa.Return {
 		stack = append(stack, x.Succs...)
 	}
 	return out
+}
+
+// ruleEncryptedWriterClose: the encrypting stream writer's Close seals, writes
+// and closes the underlying stream, and returns each of their errors.
+func ruleEncryptedWriterClose(c *Ctx, rule string) int {
+	// stream writer: what is written to the underlying stream is Encrypt's result
+	n8 := 0
+	for _, f := range c.P.PkgFuncs(cipherPkg + "/aesgcm256cfs") {
+		if f.Name() != "Close" || f.Signature.Recv() == nil {
+			continue
+		}
+		var enc, wr, cl *ssa.Call
+		for _, ci := range Calls(f) {
+			call, _ := ci.Instr.(*ssa.Call)
+			if call == nil {
+				continue
+			}
+			switch {
+			case ci.Method != nil && ci.Method.Name() == "Encrypt":
+				enc = call
+			case ci.Method != nil && ci.Method.Name() == "Write":
+				wr = call
+			case ci.Method != nil && ci.Method.Name() == "Close":
+				cl = call
+			}
+		}
+		if enc == nil && wr == nil {
+			continue // the reader's Close
+		}
+		n8++
+		facts := factsFor(f)
+		ok := enc != nil && wr != nil && cl != nil
+		why := "writer.Close does not seal, write and close"
+		if ok {
+			os := Origins(wr.Call.Args[0], FlowOpts{Alias: true})
+			if !allOrigins(os, func(o Origin) bool { return o.Val == ssa.Value(enc) }) {
+				ok, why = false, "the bytes written to the underlying stream are "+originsString(os)+", not Encrypt's result (plaintext reaches the base)"
+			} else if !callErrKnownNil(facts, enc, wr.Block()) {
+				ok, why = false, "the write is not confined to the edge where Encrypt succeeded"
+			} else if !dominates(wr, cl) || !callErrKnownNil(facts, wr, cl.Block()) {
+				ok, why = false, "the underlying stream is closed without the write having succeeded"
+			} else {
+				ret := false
+				for _, r := range returnsOf(f) {
+					if resolve(r.Results[0]) == ssa.Value(cl) {
+						ret = true
+					}
+				}
+				if !ret {
+					ok, why = false, "the error of closing the underlying stream is not returned"
+				}
+			}
+		}
+		c.Check(ok, rule, "stream writer "+fname(f), f.Pos(), "seal -> write -> close, each error propagated", why)
+	}
+	return n8
 }
